@@ -1,6 +1,10 @@
 (* C02 — decode -> encode -> decode: what the decoder accepts is a well-formed value (the decoder
    enforces exactly the predicates of C05), so re-encoding it and decoding again returns the value,
    up to what name compression may change (see Props/C05.v for the vocabulary). *)
+From DNS Require Import Model.Dec Model.Enc Spec.Names Spec.USize
+  Proofs.NameLayer Proofs.DecBase
+  Proofs.RtPrim Proofs.RtFields Proofs.RtRecord Proofs.RtSpecial Proofs.RtApl Proofs.RtMsg
+  Proofs.C05 Proofs.EncSize Proofs.EncSucceeds.
 From DNS Require Import Spec.Wire Proofs.C05ref Model.Dec Model.Enc Proofs.DecBase
   Proofs.RtPrim Proofs.RtFields Proofs.RtRecord Proofs.RtMsg Proofs.C05 Proofs.RtDecWf3.
 Local Open Scope N_scope.
@@ -47,6 +51,20 @@ Theorem C02_reencode_reference : forall (b : bytes) (m : dns) (s : dst) (b' : by
   exists m', spec_Dns b' = Some m' /\ dns_eqv m' m.
 Proof. exact reencode_reference. Qed.
 Print Assumptions C02_reencode_reference.
+
+(* encoding a decoded message succeeds whenever its uncompressed size fits in 65,535 octets *)
+(* ================= 2. C02: what the decoder accepted ================= *)
+Theorem C02_encode_succeeds : forall (b : bytes) (m : dns) (s : dst),
+  bytes_ok b -> dec_Dns b = DOk m s -> usize_dns m <= 65535 -> exists b', enc_Dns m = Ok b'.
+Proof. exact C02_encode_succeeds_proof. Qed.
+Print Assumptions C02_encode_succeeds.
+
+Theorem C02_reencode_fails_only_by_size : forall (b : bytes) (m : dns) (s : dst),
+  bytes_ok b -> dec_Dns b = DOk m s ->
+  (exists b', enc_Dns m = Ok b' /\ lenN b' <= usize_dns m) \/
+  (exists k, enc_Dns m = Err (XLength, [k]) /\ 65535 < usize_dns m).
+Proof. exact C02_reencode_fails_only_by_size_proof. Qed.
+Print Assumptions C02_reencode_fails_only_by_size.
 
 Example C02_example :
   exists m s, dec_Dns ex_bytes = DOk m s /\ dns_wf m = true /\ enc_Dns m = Ok ex_bytes.
